@@ -16,6 +16,10 @@ type DRBG struct {
 	Count  int64
 	// Fault modes (C11): "", "const", "zero"
 	Mode string
+	// ForkAt/ForkLabel: once Count reaches ForkAt (>0) the stream continues as NewDRBG(ForkLabel):
+	// a twin that is bit-identical up to a point and independent afterwards (C06).
+	ForkAt    int64
+	ForkLabel string
 }
 
 // NewDRBG derives the stream from SHA-256(label).
@@ -30,6 +34,11 @@ func NewDRBG(label string) *DRBG {
 }
 
 func (d *DRBG) Read(p []byte) (int, error) {
+	if d.ForkAt > 0 && d.Count >= d.ForkAt {
+		f := NewDRBG(d.ForkLabel)
+		d.stream = f.stream
+		d.ForkAt = 0
+	}
 	d.Count += int64(len(p))
 	switch d.Mode {
 	case "zero":
